@@ -44,7 +44,12 @@ class Chan:
         self.sent = []
         self.closed = False
 
+    fail_send_at = None          # index of a send that fails with EPIPE: the peer has shut down its reading side
+
     def send_bytes(self, b):
+        if self.fail_send_at is not None and len(self.sent) == self.fail_send_at:
+            self.sent.append(None)
+            raise BrokenPipeError(32, 'Broken pipe')
         self.sent.append(bytes(b))
 
     def recv_bytes(self, maxlength=None):
@@ -195,7 +200,7 @@ def _byte(sel, right):
     return bytes([(right, right ^ 1, (right + 1) % 256, 0, 255)[sel]])
 
 
-def h_hostile_answer(ka: int, variant: int, sel: int) -> bool:
+def h_hostile_answer(ka: int, variant: int, sel: int, broken: bool = False) -> bool:
     """
     pre: (ka == 0 or ka == 3) and 0 <= variant <= 4 and 0 <= sel <= 4
     post: _
@@ -223,6 +228,16 @@ def h_hostile_answer(ka: int, variant: int, sel: int) -> bool:
             resp = digest
         d = Chan([resp])
         calls[:] = []
+        if broken:
+            # the peer reads the challenge, answers, and stops reading: the write of the verdict fails.  Whatever that failure
+            # looks like to the caller, a peer that did not prove the key must not come out as authenticated
+            d.fail_send_at = 1
+            r, _ = _run(bc.deliver_challenge, d, key)
+            if resp != digest and r == 'ok':
+                return fail('C18:wrong-digest-accepted:verdict-could-not-be-written')
+            if len(d.sent) < 1 or d.sent[0] != bc.CHALLENGE + c1:
+                return fail('C18:wire:challenge-not-sent-as-generated')
+            return True
         r, _ = _run(bc.deliver_challenge, d, key)
         if resp == digest:
             if r != 'ok' or d.sent[1:] != [bc.WELCOME]:
